@@ -354,12 +354,17 @@ func runC16(t *rapid.T, st *Stats, v *VestWorld, viaHandler bool, determinismOnl
 			// identical stores
 			ca, _ := ctx.CacheContext()
 			cb, _ := ctx.CacheContext()
-			runUpgrade(ca)
-			runUpgrade(cb)
+			// (the second replica's machine may be set to another local time zone)
+			zone := NodeTimeZones[rapid.IntRange(0, len(NodeTimeZones)-1).Draw(t, "replicaTimeZone")]
+			InTimeZone("", func() { runUpgrade(ca) })
+			InTimeZone(zone, func() { runUpgrade(cb) })
+			if zone != "" {
+				classes["replica_in_another_time_zone"] = true
+			}
 			names := []string{vestingtypes.StoreKey, mintertypes.StoreKey, distrtypes.StoreKey, "bank", "acc", "params", "upgrade"}
 			for _, n := range names {
 				if da, db := storeDigest(app, ca, n), storeDigest(app, cb, n); da != db {
-					t.Fatalf("two executions of the v1.2.0 upgrade (handler=%v) on identical state left different %s stores: %s vs %s\npools A: %v\npools B: %v", viaHandler, n, da, db,
+					t.Fatalf("two executions of the v1.2.0 upgrade (handler=%v, second replica in time zone %q) on identical state left different %s stores: %s vs %s\npools A: %v\npools B: %v", viaHandler, zone, n, da, db,
 						app.CfevestingKeeper.GetAllAccountVestingPools(ca), app.CfevestingKeeper.GetAllAccountVestingPools(cb))
 				}
 			}
@@ -503,8 +508,8 @@ func runC16(t *rapid.T, st *Stats, v *VestWorld, viaHandler bool, determinismOnl
 				_ = cdc.UnmarshalInterface(bz, &preA)
 				_ = cdc.UnmarshalInterface(abz, &postA)
 				a, b := preA.(*authvesting.ContinuousVestingAccount), postA.(*authvesting.ContinuousVestingAccount)
-				wantS := time.Unix(a.StartTime, 0).AddDate(1, 0, 0).Unix()
-				wantE := time.Unix(a.EndTime, 0).AddDate(1, 0, 0).Unix()
+				wantS := time.Unix(a.StartTime, 0).UTC().AddDate(1, 0, 0).Unix()
+				wantE := time.Unix(a.EndTime, 0).UTC().AddDate(1, 0, 0).Unix()
 				if b == nil || b.StartTime != wantS || b.EndTime != wantE {
 					t.Fatalf("founder account %s: schedule %d..%d became %d..%d, expected one calendar year later %d..%d", addr, a.StartTime, a.EndTime, b.StartTime, b.EndTime, wantS, wantE)
 				}
